@@ -6,9 +6,10 @@ props = [json.loads(l) for l in open(os.path.join(ROOT, "properties.jsonl"))]
 ids = [p["id"] for p in props]
 checks, na = [], []
 pending = json.load(open(os.path.join(ROOT, "checks", "not_applicable.json")))
+ready = set(open(os.path.join(ROOT, "checks", "ready.txt")).read().split())
 for pid in ids:
     f = os.path.join(ROOT, "checks", pid + ".json")
-    if os.path.exists(f):
+    if os.path.exists(f) and pid in ready:
         c = json.load(open(f))
         checks.append({
             "property_id": pid,
